@@ -61,6 +61,11 @@ def gen_points(rng, n, dim, kind):
         m = rng.randint(1, max(1, min(n, 12)))
         base = [[rng.uniform(-20, 20) for _ in range(dim)] for _ in range(m)]
         P = [list(rng.choice(base)) for _ in range(n)]
+    elif kind == "offset":        # projected map coordinates: a huge common offset, metre-scale spacing (the split
+        # planes are not representable in a narrower type; every bit of the coordinates matters for pruning)
+        off = [rng.choice([1e5, 1e6, 1e7]) * rng.choice([1, -1]) + rng.uniform(-1e3, 1e3) for _ in range(dim)]
+        sp = 10.0 ** rng.uniform(-1, 1)
+        P = [[off[d] + rng.uniform(-sp, sp) * rng.choice([1, 1, 5]) for d in range(dim)] for _ in range(n)]
     elif kind == "lattice":       # small integer coordinates: many exact ties, all float arithmetic exact
         w = rng.randint(1, 6)
         P = [[float(rng.randint(-w, w)) for _ in range(dim)] for _ in range(n)]
@@ -129,7 +134,7 @@ def make_case(rng, n, dim, ty, hom, kind, nq):
     return " ".join(toks)
 
 
-KINDS = ["uniform", "clustered", "collinear", "coplanar", "duplicates", "lattice", "grid"]
+KINDS = ["uniform", "clustered", "collinear", "coplanar", "duplicates", "lattice", "grid", "offset"]
 
 
 def gen(rng, tier):
